@@ -6,7 +6,9 @@ Scenario line (see props/C07.py):  <cfg> <method> <body> <addrs> <prime> <faults
   body    n (no body headers) | z (Content-Length: 0) | b<k> (k body bytes) | c<k> (chunked, k bytes) | w<k> (Content-Length k, body withheld by the client)
   addrs   the A records of the origin host name in DNS answer order, one digit each: 1..3 = 127.107.0.x where the origin listens,
           4..6 = 127.107.0.x where nothing listens (connection refused); e.g. 12, 412, 3
-  prime   0 | 1: a persistent connection (to the first listening address) is left idle in squid's pool beforehand
+  prime   0 | 1: a persistent connection to the first address (which must listen) is left idle in squid's pool beforehand
+          (a refusing address tried by the priming request may or may not get its ipcache "bad" mark, depending on whether the
+          AAAA answer arrived before the refusal: ipcacheMarkBadAddr() only finds entries that are already in the table)
   faults  comma list, one per arrival (connection on which the request's first line became readable), then `ok`:
           ok | pk (close before reading; RST) | hd (close after reading the head) | fr (read whole request, FIN) | rs (read whole request, RST)
           | hf<k> / hr<k> (send k bytes of a reply head, then FIN / RST) | bf<status> / br<status> (whole head, Content-Length 100, 10 body bytes, then FIN / RST)
@@ -313,7 +315,7 @@ def parse_line(line):
         return None
     if method in ("CONNECT", "PURGE", "PRI"):
         return None
-    if len(set(addrs)) != len(addrs) or (prime == "1" and not any(a in "123" for a in addrs)):
+    if len(set(addrs)) != len(addrs) or (prime == "1" and addrs[0] not in "123"):
         return None
     return cfg, method, body, addrs, int(prime), fl
 
@@ -322,20 +324,31 @@ class Runner:
     def __init__(self, stage, cfgs=("d", "t", "p", "e")):
         self.dns = DnsStub()
         self.origin = FaultOrigin()
+        self.stage = stage
         self.sq = {}
-        base = ("cache deny all\ndns_nameservers %s\ndns_timeout 10 seconds\nconnect_timeout 20 seconds\nread_timeout 60 seconds\n"
-                "request_timeout 60 seconds\nclient_lifetime 10 minutes\n" % self.dns.addr)
-        for k in cfgs:
+        self.base = base = ("cache deny all\ndns_nameservers %s\ndns_timeout 10 seconds\nconnect_timeout 20 seconds\nread_timeout 60 seconds\n"
+                "request_timeout 60 seconds\nclient_lifetime 10 minutes\n" % self.dns.addr) + os.environ.get("C07_EXTRA_CONF", "")
+        self.restart(cfgs)
+        self.n = 0
+        self.lock = threading.Lock()
+        self.crashes = 0
+
+    def restart(self, keys):
+        """(re)start the instances `keys`; main thread only (rig.Squid.start forks)"""
+        for k in keys:
+            old = self.sq.pop(k, None)
+            if old is not None:
+                try:
+                    old.stop(kill=True)
+                except Exception:
+                    pass
             for attempt in range(4):
                 try:
-                    self.sq[k] = rig.Squid(stage, conf=base + CONFS[k]).start(wait=90)
+                    self.sq[k] = rig.Squid(self.stage, conf=self.base + CONFS[k]).start(wait=90)
                     break
                 except RuntimeError:
                     if attempt == 3:
                         raise
-        self.n = 0
-        self.lock = threading.Lock()
-        self.crashes = 0
 
     def squids(self):
         return list(self.sq.values())
